@@ -513,15 +513,20 @@ func c03MatchPairs(r *Run) {
 func c12DeepCrowd(r *Run) {
 	var terms []string
 	for i := 0; i < 40; i++ {
-		terms = append(terms, fmt.Sprintf("( A == 1 or f%d == 1 )", i))
+		terms = append(terms, "A == 1")
 	}
+	terms = append(terms, "Z == 2") // chains group to the right: the last term is evaluated 40 levels down
 	e := strings.Join(terms, " and ")
-	d := map[string]interface{}{"A": 1}
+	d := map[string]interface{}{"A": 1, "Z": 2}
 	var parked int32
 	release := make(chan struct{})
 	hook := func(v reflect.Value) reflect.Value {
-		if atomic.AddInt32(&parked, 1) <= 600 {
-			<-release
+		w := v
+		for w.IsValid() && w.Kind() == reflect.Interface && !w.IsNil() {
+			w = w.Elem()
+		}
+		if w.IsValid() && w.Kind() == reflect.Int && w.Int() == 2 && atomic.AddInt32(&parked, 1) <= 600 {
+			<-release // every call waits at its deepest point until all of them are there
 		}
 		return v
 	}
@@ -545,7 +550,7 @@ func c12DeepCrowd(r *Run) {
 	r.Seen("deep-crowd")
 	for g, o := range outs {
 		if o != want {
-			r.Violate("concurrent-result-differs", "deep-crowd", map[string]interface{}{"expression": "40 parenthesised terms joined by and", "calls_in_flight": 600}, fmt.Sprintf("call %d of 600 simultaneous calls returned %s, alone %s", g, o, want))
+			r.Violate("concurrent-result-differs", "deep-crowd", map[string]interface{}{"expression": "41 terms joined by and, all calls held at the last one", "calls_in_flight": 600}, fmt.Sprintf("call %d of 600 simultaneous calls returned %s, alone %s", g, o, want))
 			break
 		}
 	}
